@@ -8,6 +8,7 @@
 (c) estimate_rf / estimate_alpha mutual inverses (compared through cos alpha), boundary values, and the
     closed form proved in Coq checked with the Interval tactic.
 """
+import os
 import math, os
 from fractions import Fraction as F
 import numpy as np
@@ -454,7 +455,7 @@ def run_ties(ctx, goals, meta, what):
     nsh = min(core.NPROC, max(1, len(goals) // 6))
     files = []
     for s in range(nsh):
-        path = os.path.join(core.CASES, "%s_tie_%d.v" % (ctx.pid, s))
+        path = os.path.join(core.CASES, "%s_p%d_tie_%d.v" % (ctx.pid, os.getpid(), s))
         with open(path, "w") as f:
             f.write(TIE_HEADER + "\n".join(goals[s::nsh]) + "\n")
         files.append(path)
